@@ -1260,7 +1260,7 @@ class WritePolicy(Base):
 class Trigger(Base):
     expr: Set
     # All the relevant dml
-    affected: set[tuple[TypeRef, MutatingStmt]]
+    affected: tuple[tuple[TypeRef, MutatingStmt], ...]
     all_affected_types: set[TypeRef]
     source_type: TypeRef
     kinds: set[qltypes.TriggerKind]
